@@ -115,6 +115,8 @@ def exhaustive_small_graphs(ctx, kind, n, chunk, nchunks, step):
             continue            # graphs with antiparallel pairs collapse weights in scipy; outside the statement's directed scope
         n_graphs += 1
         tag = '%s%d#%d' % (kind[0], n, code)
+        ctx.case(dict(graph=kind, n_vertices=n, edges=[list(e) for e in edges], queries='adjacency, neighbours, every mask, cycles, tree, all start/end paths, shortest paths, MST per root'),
+                 nontrivial=len(edges) > 0)
         E = np.array(edges, dtype=int).reshape(-1, 2)
         cls = S.PointDirectedGraph if directed else S.PointUndirectedGraph
         g = cls.init_from_edges(pts, E)
@@ -259,6 +261,7 @@ def trees_and_weighted_random(ctx, kind):
                     if v not in seen:
                         seen.add(v); order.append(v); edges.append((u, v))
             t = S.PointTree.init_from_edges(pts, np.array(edges), root_vertex=root)
+            ctx.case(dict(tree_edges=[[int(a), int(b)] for a, b in edges], root=root))
             ctx.check_true('root%d/tree-relations' % root, _tree_consistent(t))
             dadj = adj_sets(n, edges, True)
             for bits in itertools.product([False, True], repeat=n):
@@ -289,6 +292,7 @@ def trees_and_weighted_random(ctx, kind):
                 W[i, i + 1] = rs.randint(1, 9)     # keep it connected
         Wf = W + W.T
         g = S.PointUndirectedGraph(rs.randn(n, 2), sp.csr_matrix(Wf))
+        ctx.case(dict(weighted_graph=kind, n_vertices=int(n), n_edges=int((Wf > 0).sum() // 2), weights='integers 1..8'))
         w = np.where(Wf > 0, Wf, np.inf)
         np.fill_diagonal(w, 0.0)
         D = ref_dist(n, w)
